@@ -680,6 +680,13 @@ impl<'a> Resolver<'a> {
                             Some(Lit::Null) | None => break,
                             Some(l) => l,
                         };
+                        if let (Target::AggAlias(_), Lit::Float(x)) = (&e.order[i].target, &lit) {
+                            // SQLite renders a float aggregate with 15 digits in the JSON the HAVING clause
+                            // reads back: only values that survive this rendering can be used as position
+                            if x.fract() != 0.0 || x.abs() > 1e14 {
+                                break;
+                            }
+                        }
                         let binary = f.system && f.ty == Ty::Base64;
                         let mut as_var = p.as_var;
                         if binary && !as_var && !self.wild {
